@@ -37,7 +37,7 @@ scalar_t function_chained_cb3II_t::do_vgrad(vector_cmap_t x, vector_map_t gx) co
     if (gx.size() == x.size())
     {
         gx.full(0.0);
-        if (fx1 > std::max(fx2, fx3))
+        if (fx1 >= std::max(fx2, fx3))
         {
             for (tensor_size_t i = 0, dims = size(); i + 1 < dims; ++i)
             {
@@ -45,7 +45,7 @@ scalar_t function_chained_cb3II_t::do_vgrad(vector_cmap_t x, vector_map_t gx) co
                 gx(i + 1) += 2.0 * x(i + 1);
             }
         }
-        else if (fx2 > std::max(fx1, fx3))
+        else if (fx2 >= std::max(fx1, fx3))
         {
             for (tensor_size_t i = 0, dims = size(); i + 1 < dims; ++i)
             {
